@@ -89,16 +89,16 @@ def handle (cmd : String) (fs : List String) : String :=
     let n := (natList kinds).length
     let vals := ((natList kinds).zip (padTo n (decodeStrList vs))).map fun (k, v) => parseVal k v
     showRes (dumpCHeader (nasm == "1") (decodeStr mac) (zip3 (padTo n (decodeStrList ks)) vals (padTo n (decodeStrList ds))))
-  | "optsort", [fixed, sf, subs, ms, ns] =>
+  | "optsort", [sf, subs, ms, ns] =>
     let keys := mkKeys (natList sf) (decodeStrList subs) (natList ms) (decodeStrList ns)
-    ",".intercalate ((sortIdx (if fixed == "1" then optKeyLtFixed else optKeyLt) keys).map toString)
+    ",".intercalate ((sortIdx optKeyLt keys).map toString)
   | "optstr", [sf, subs, ms, ns] =>
     encodeStrList ((mkKeys (natList sf) (decodeStrList subs) (natList ms) (decodeStrList ns)).map OptKey.show)
-  | "buildopts", [fixed, sf, subs, ms, ns, kinds, bsf, bsubs, bms, bns] =>
+  | "buildopts", [sf, subs, ms, ns, kinds, bsf, bsubs, bms, bns] =>
     let keys := mkKeys (natList sf) (decodeStrList subs) (natList ms) (decodeStrList ns)
     let store := keys.zip ((natList kinds).map kindOf)
     let base := mkKeys (natList bsf) (decodeStrList bsubs) (natList bms) (decodeStrList bns)
-    showRows (if fixed == "1" then introBuildoptionsFixed store base else introBuildoptions store base)
+    showRows (introBuildoptions store base)
   | "testdeps", [l] => encodeStrList (testDepends (decodeStrList l))
   | "ldpath", [l] => encodeStr (ldLibraryPath (decodeStrList l))
   | "depnames", [flags, names] =>
